@@ -217,6 +217,10 @@ func (c clauseSpec) feature() string {
 }
 
 type qsCase struct {
+	// Pre, when set, is an incomplete or rejected query string that is parsed right before the
+	// case itself, in the same goroutine: parsing is a function of its input alone, so whatever
+	// was parsed before (the parser pools its lexers) must not change the meaning of the case.
+	Pre     string       `json:"parsed_just_before,omitempty"`
 	Clauses []clauseSpec `json:"clauses"`
 	Lead    string       `json:"lead,omitempty"`
 	Trail   string       `json:"trail,omitempty"`
@@ -426,6 +430,9 @@ func (x *gen) qsCase() qsCase {
 	if x.g.Chance(1, 10) {
 		c.Sep = "  "
 	}
+	if x.g.Chance(1, 3) {
+		c.Pre = rng.Pick(x.g, []string{"gamma \\", "\\", "\"unterminated phrase", "title:", "+", "alpha^", "num:>", "a~", "/unterminated regexp", "beta \\ ", "-", "alpha \\"})
+	}
 	return c
 }
 
@@ -451,8 +458,15 @@ func qsProblem(p *probe, c qsCase) (problem, detail string) {
 	want, evaluable := c.expect()
 	qs := bleve.NewQueryStringQuery(s)
 	var perr, verr error
+	poison := func() {
+		if c.Pre != "" {
+			_, _, _ = ev.Guard(func() { _, _ = bleve.NewQueryStringQuery(c.Pre).Parse() })
+		}
+	}
 	panicked, val, stack := ev.Guard(func() {
+		poison()
 		verr = qs.Validate()
+		poison()
 		_, perr = qs.Parse()
 	})
 	if panicked {
@@ -465,6 +479,7 @@ func qsProblem(p *probe, c qsCase) (problem, detail string) {
 		return "rejected", "Validate: " + verr.Error()
 	}
 	for _, cl := range cells {
+		poison()
 		got := runQuery(p, qs, cl)
 		direct := runQuery(p, want.Bleve(), cl)
 		if d, det := diffOutcome(direct, got); d != "" {
@@ -561,6 +576,9 @@ func checkQS(r *ev.Run, probes []*probe, c qsCase, sample bool) {
 			}
 		}
 		class := "qs-meaning/" + family(problem) + "/" + strings.Join(small.features(), " ")
+		if small.Pre != "" {
+			class += "/after-parsing-an-incomplete-string"
+		}
 		r.Violation(class, fmt.Sprintf("query string %q differs from its documented translation on %s: %s", small.render(), p.Name, firstLines(detail, 6)), w)
 		return
 	}
